@@ -74,7 +74,9 @@ func (fc *FnCtx) instr(in ssa.Instruction, st *State) {
 		fn := x.Fn.(*ssa.Function)
 		c := &Closure{Fn: fn}
 		for _, b := range x.Bindings {
-			c.Bindings = append(c.Bindings, fc.val(b))
+			bv := fc.val(b)
+			fc.markEscaped(bv) // the closure may run at any later time
+			c.Bindings = append(c.Bindings, bv)
 		}
 		fc.vals[x] = Val{Clo: c, GoT: x.Type()}
 	case *ssa.MakeSlice:
